@@ -65,13 +65,34 @@ def gen_scenarios(tier):
                     continue
                 t3x = [o for o in t3x if o != D(2)]
         add(t1, t2, t3x, b1=b1, b2=b2)
+    nplain = len(out)
+    # fused_stop_source / inplace_stop_token_adapter: stop requested through upstream sources ("up", i)
+    U = lambda i: ["up", i]
+    fam = []
+    for kind, ups in (("fused", [1, 2]), ("adapter", [1])):
+        u1, u2 = U(ups[0]), U(ups[-1])
+        fam += [(kind, [R(1), D(1)], [u1], [R(2), D(2)], [], [], []),
+                (kind, [R(1), D(1)], [u1], [u2], [], [], []),
+                (kind, [R(1)], [u1], [R(2), D(2)], [D(1)], [], []),
+                (kind, [R(2), R(1), D(1)], [u2], [], [D(2)], [], []),
+                (kind, [R(1), D(1)], [u1], [R(2), D(2), u2], [u2], [], []),
+                (kind, [R(1), D(1)], [u1, R(3), D(3)], [u2], [], [], []),
+                (kind, [R(1), D(1)], [u1], [u1, R(2), D(2)], [], [], [])]
+        if kind == "fused":
+            fam += [(kind, [R(1), D(1)], [u1], [Q], [], [], []), (kind, [R(1), D(1)], [Q, u2], [R(2), D(2)], [], [Q], [])]
+    fused = []
+    for kind, p1, p2, p3, b1, b2, b3 in fam:
+        fused.append(dict(kind=kind, prog=[p1, p2, p3], body=[b1, b2, b3]))
     if tier == "quick":
         core = out[:7]
         rest = out[7:]
         step = max(1, len(rest) // 17)
         out = core + rest[::step][:17]
-        for i, s in enumerate(out):
-            s["id"] = i + 1
+    for s in out:
+        s["kind"] = "plain"
+    out = out + fused
+    for i, s in enumerate(out):
+        s["id"] = i + 1
     return out
 
 
@@ -103,6 +124,8 @@ def run(ctx):
             k = json.dumps([b["scn"], sched])
             if k in seen:
                 continue
+            if scns[b["scn"] - 1].get("kind", "plain") != "plain":
+                continue      # upstream sources run their own protocol (extra schedule points): DFS/random + monitor only
             seen.add(k)
             f.write(json.dumps(b) + "\n")
             nb += 1
